@@ -73,6 +73,19 @@ type driver struct {
 	names []string
 }
 
+// safeAdjust applies an adjustment with the generator; a panic is reported like an error.
+func safeAdjust(g *nrigen.Generator, a *api.ContainerAdjustment) (ge string) {
+	defer func() {
+		if r := recover(); r != nil {
+			ge = fmt.Sprint("panic: ", r)
+		}
+	}()
+	if err := g.Adjust(a); err != nil {
+		return err.Error()
+	}
+	return ""
+}
+
 func ctrID(s *Scenario) string { return s.Own + "#" + strconv.Itoa(s.Scn) }
 
 func (d *driver) lookup(c *api.Container) *Scenario {
@@ -197,8 +210,8 @@ func (d *driver) run(r *rig.Rig, s *Scenario, np int) error {
 			// the combined adjustment applied with the project's generator
 			var cdi []string
 			g := newGen(abs.ToOCISpecOrd(s.Orig, s.Scn%2 == 1), &cdi)
-			if e := g.Adjust(rpl.Adjust); e != nil {
-				gerr += "combined: " + e.Error() + ";"
+			if e := safeAdjust(g, rpl.Adjust); e != "" {
+				gerr += "combined: " + e + ";"
 			}
 			end["fcomb"] = abs.FromOCISpec(g.Config, cdi)
 			// each plugin's adjustment applied in turn
@@ -209,8 +222,8 @@ func (d *driver) run(r *rig.Rig, s *Scenario, np int) error {
 					continue
 				}
 				resp := e["resp"].(abs.Resp)
-				if e := g2.Adjust(abs.ToAPIAdjust(resp.Adj)); e != nil {
-					gerr += "sequential: " + e.Error() + ";"
+				if e := safeAdjust(g2, abs.ToAPIAdjust(resp.Adj)); e != "" {
+					gerr += "sequential: " + e + ";"
 				}
 			}
 			end["fseq"] = abs.FromOCISpec(g2.Config, cdi2)
